@@ -10,7 +10,7 @@ From V.lib Require Import Base.
 From V.c05 Require Import C05Model C05FragModel C05CodecModel.
 From V.c12 Require C12Model.
 From V.c02 Require Import C02AggModel C02AggSizeProofs C02AggOptProofs C02AggFragProofs C02AggFileProofs
-  C02AggPureProofs C02AggC12Proofs C02AggExamples.
+  C02AggPureProofs C02AggC12Proofs C02AggSencModel C02AggSencProofs C02AggExamples.
 
 (* ---- bytes written = Size() afterwards = sum of the box lengths; every top-level box header is right;
         Size() beforehand is the same when trun optimisation is off; well-formedness is kept *)
@@ -173,7 +173,63 @@ Theorem C02_c12_order : forall f f' boxes,
 Proof. exact file_c12. Qed.
 Print Assumptions C02_c12_order.
 
+(* ---- SencBox, the box whose Encode / EncodeSW / Info set a flag that Size() depends on (opaque in the model above).
+        The flag setting is idempotent; every box built by CreateSencBox + AddSample (any history, refused samples
+        included, IVs below 256 bytes, fewer than 2^32 samples) is built_ok, hence senc_ok; a senc_ok box is left
+        alone by Info, Encode and EncodeSW, which both write the same Size() bytes with a correct size field (or both
+        fail because Size() >= 2^32): it is a well-formed, stateless opaque box of the aggregate theorems. *)
+Theorem C02_senc_flag_idem : forall s, senc_setflag (senc_setflag s) = senc_setflag s.
+Proof. exact senc_setflag_idem. Qed.
+Print Assumptions C02_senc_flag_idem.
+
+Theorem C02_senc_built : forall l s,
+  built_ok s = true -> Forall (fun p => lenN (fst p) < 256) l -> sn_count s + lenN l < 4294967296 ->
+  built_ok (senc_adds senc_add s l) = true.
+Proof. exact senc_adds_built. Qed.
+Print Assumptions C02_senc_built.
+
+Theorem C02_senc_built_ok : forall s, built_ok s = true -> senc_ok s = true.
+Proof. exact built_ok_senc_ok. Qed.
+Print Assumptions C02_senc_built_ok.
+
+Theorem C02_senc : forall s, senc_ok s = true ->
+  exists n, senc_size s = Ok n /\
+    ((TWO32 <=? n) = true /\ snd (senc_encode_w s) = Err /\ snd (senc_encode_sw s) = Err
+     \/ exists b, senc_encode_w s = (s, Ok b) /\ senc_encode_sw s = (s, Ok b) /\ lenN b = n /\ box_ok b = true) /\
+    senc_info s = Ok s.
+Proof. exact senc_ok_encode. Qed.
+Print Assumptions C02_senc.
+
+Theorem C02_senc_obox : forall s, senc_ok s = true -> ob_err (senc_obox s) = false -> ob_wf (senc_obox s) = true.
+Proof. exact senc_ok_obox. Qed.
+Print Assumptions C02_senc_obox.
+
+(* the AddSample text before ecf1460 / 0b086ee: Size() panics, resp. Size() = 32 and Encode panics (C02-F12, C02-F13) *)
+Theorem C02_senc_pinned_size_refuted : exists l, senc_size (senc_adds senc_add_pinned senc_create l) = Panic.
+Proof. exact senc_pinned_size_refuted. Qed.
+Print Assumptions C02_senc_pinned_size_refuted.
+
+Theorem C02_senc_pinned_encode_refuted : exists l n,
+  senc_size (senc_adds senc_add_pinned senc_create l) = Ok n /\
+  snd (senc_encode_w (senc_adds senc_add_pinned senc_create l)) = Panic.
+Proof. exact senc_pinned_encode_refuted. Qed.
+Print Assumptions C02_senc_pinned_encode_refuted.
+
+(* without the guard senc_ok (flag not consistent with the sub-samples: only by writing the fields directly) Encode
+   changes Size(): 16 before, 24 after *)
+Theorem C02_senc_flag_refuted : exists s n n',
+  senc_size s = Ok n /\ senc_size (fst (senc_encode_w s)) = Ok n' /\ n <> n'.
+Proof. exact senc_flag_refuted. Qed.
+Print Assumptions C02_senc_flag_refuted.
+
 (* ---- the hypotheses are satisfiable by non-trivial values *)
+(* three samples, 8-byte IVs, sub-samples on the second one only: built_ok, 16 + 3*8 + 3*2 + 6 = 52 bytes *)
+Example C02_ex_senc :
+  let s := senc_adds senc_add senc_create
+             [([1; 2; 3; 4; 5; 6; 7; 8], []); ([1; 2; 3; 4; 5; 6; 7; 9], [(10, 1000)]); ([1; 2; 3; 4; 5; 6; 7; 10], [])] in
+  built_ok s = true /\ senc_size s = Ok 52 /\ exists b, senc_encode_w s = (s, Ok b) /\ lenN b = 52.
+Proof. cbv zeta. split; [reflexivity|]. split; [reflexivity|]. eexists. split; [vm_compute; reflexivity|reflexivity]. Qed.
+
 (* a fragment with an emsg-like box, a traf with an extra box, two samples: optimisation shrinks it from 147 to
    135 bytes at encode time; the bytes written are the 135 *)
 Example C02_ex_fragment :
